@@ -187,6 +187,11 @@ def matrix(rng, n, shape=None):
             shape = 'random'
     if shape == 'f16b' and n < 3:
         shape = 'random'
+    if shape in ('sdd', 'random', 'needswap', 'tri', 'diag') and rng.random() < .12:
+        # the same matrix at a very small / very large scale: regular pivots of size 1e-9 are pivots, not zeros
+        sc = rng.choice([F(1, 10 ** 9), F(1, 10 ** 12), F(10 ** 9)])
+        A = [[sc * x for x in row] for row in A]
+        shape += '@scaled'
     return A, shape + ':' + kind
 
 
